@@ -22,3 +22,8 @@ b = _spy("b")
 def executed(name, version):
     seams.hit("module.body")  # a fault here aborts the module body: then it is not an observed load
     LOG.append(("exec", name, version))
+
+
+def completed(name, version):
+    """Last statement of every generated module: only completed loads are judged."""
+    LOG.append(("done", name, version))
